@@ -21,7 +21,7 @@ EVID = os.path.join(VERIF, "evidence")
 ALLOWED_AXIOMS = {"propext", "Classical.choice", "Quot.sound"}
 FORBIDDEN = re.compile(r"\b(sorry|admit|native_decide|bv_decide|implemented_by|unsafe)\b|^\s*axiom\s|maxHeartbeats\s+0\b")
 NCPU = os.cpu_count() or 4
-RUN_TIMEOUT = int(os.environ.get("VERIF_RUN_TIMEOUT", "900"))   # thorough tier; the quick tier uses 120 s (set in main)
+RUN_TIMEOUT = int(os.environ.get("VERIF_RUN_TIMEOUT", "900"))   # thorough tier; the quick tier uses 300 s (set in main)
 
 sys.path.insert(0, os.path.join(VERIF, "tools"))
 
@@ -33,8 +33,13 @@ def run(cmd, cwd=None, env=None, timeout=None, input=None):
     e["CARGO_NET_OFFLINE"] = "true"
     if env:
         e.update(env)
-    p = subprocess.run(cmd, cwd=cwd, env=e, stdout=subprocess.PIPE, stderr=subprocess.STDOUT,
-                       text=True, timeout=timeout, input=input)
+    try:
+        p = subprocess.run(cmd, cwd=cwd, env=e, stdout=subprocess.PIPE, stderr=subprocess.STDOUT,
+                           text=True, timeout=timeout, input=input)
+    except subprocess.TimeoutExpired as ex:
+        return 124, "%s\n[timed out after %s s: %s]" % ((ex.stdout or b"").decode(errors="replace") if isinstance(ex.stdout, bytes) else (ex.stdout or ""), timeout, " ".join(map(str, cmd))[:200])
+    except OSError as ex:
+        return 127, "[cannot run %s: %s]" % (" ".join(map(str, cmd))[:200], ex)
     return p.returncode, p.stdout
 
 class Lock:
@@ -348,13 +353,38 @@ def structured_sibling_cases(cases, rng, per_op):
                         out.append(Case(line, "relation:one-argument-" + name, e, dict(sib=True)))
     return out
 
+def write_evidence(ev):
+    """`level: proof` requires obligations >= 1 and discharged >= 1 in the schema; a run in which NO obligation could be discharged (a broken
+    translator, an unbuildable harness) reports the counts it measured under other names so that the file stays readable as evidence of
+    what was (not) covered, with the exploration-style counts the schema accepts instead"""
+    c = ev["coverage"]
+    if not c.get("discharged") or not c.get("obligations"):
+        c["obligations_total"] = c.pop("obligations", 0)
+        c["discharged_total"] = c.pop("discharged", 0)
+        c.setdefault("explanation", "")
+        c["explanation"] = "NO proof obligation was discharged on this run. " + c["explanation"]
+    try:
+        os.makedirs(EVID, exist_ok=True)
+        with open(os.path.join(EVID, ev["property_id"] + ".json"), "w") as f:
+            json.dump(ev, f, indent=1, default=str)
+    except Exception as e:
+        log("[%s] could not write the evidence file: %s" % (ev.get("property_id"), e))
+
+def lean_version():
+    rc, out = run(["lean", "--version"], timeout=60)
+    m = re.search(r"version ([0-9][^\s,]*)", out or "")
+    return m.group(1) if m else "unknown"
+
+def replay_name(rdir, pid):
+    return os.path.join(rdir, "%s_%d_%d.json" % (pid, int(time.time()), os.getpid()))
+
 def load_known():
     p = os.path.join(VERIF, "known_findings.json")
     if not os.path.exists(p):
         return {"findings": [], "fixed": []}
     return json.load(open(p))
 
-def main():
+def _main():
     ap = argparse.ArgumentParser()
     ap.add_argument("prop")
     ap.add_argument("--tier", default=os.environ.get("VERIF_TIER", "quick"))
@@ -369,6 +399,21 @@ def main():
         RUN_TIMEOUT = 300
     seed = int(os.environ.get("VERIF_SEED", "20260930") or 0)
     t_start = time.time()
+    if not re.fullmatch(r"C(0[1-9]|1[0-9])", pid):
+        log("usage: check C01..C19 [--tier quick|thorough] [--replay file]   (unknown property %r)" % args.prop)
+        sys.exit(2)
+    if args.tier not in ("quick", "thorough", "q", "t"):
+        log("unknown tier %r: quick | thorough" % args.tier)
+        sys.exit(2)
+    # the harness's path dependency is /repo; a different VERIF_REPO is only meaningful in the private clones tools/matrix.sh makes
+    # (it rewrites harness/Cargo.toml there) — refuse a translator / harness split
+    try:
+        dep = re.search(r'wow_srp\s*=\s*\{\s*path\s*=\s*"([^"]+)"', open(os.path.join(HARNESS, "Cargo.toml")).read()).group(1)
+    except Exception:
+        dep = None
+    if dep and os.path.realpath(dep) != os.path.realpath(REPO):
+        log("VERIF_REPO=%s but harness/Cargo.toml builds %s: refusing to check two different trees" % (REPO, dep))
+        sys.exit(2)
     mod = importlib.import_module("props." + pid.lower())
     os.makedirs(WORK, exist_ok=True)
     os.makedirs(EVID, exist_ok=True)
@@ -391,13 +436,13 @@ def main():
         # the crate (or the harness against the crate's public API: a removed function, a changed signature, a type that is no longer
         # Send / Clone / PartialEq) no longer compiles: the correspondence cannot even be run, so the tie is broken
         log("[%s] harness does not build against %s:\n%s" % (pid, REPO, tail(out, 40)))
-        return no_build(pid, rdir, "default-math", out)
+        return no_build(pid, rdir, "default-math", out, lean, tier, seed, t_start, mod)
     backends = [("num", impl_bin)]
     if getattr(mod, "BOTH_BACKENDS", False):
         ok2, impl2, out2 = build_harness(True)
         if not ok2:
             log("[%s] fast-math harness does not build:\n%s" % (pid, tail(out2, 40)))
-            return no_build(pid, rdir, "srp-fast-math", out2)
+            return no_build(pid, rdir, "srp-fast-math", out2, lean, tier, seed, t_start, mod)
         backends.append(("rug", impl2))
 
     rng = random.Random(seed * 1000003 + int(hashlib.sha1(pid.encode()).hexdigest()[:8], 16))
@@ -439,7 +484,10 @@ def main():
     t_impl = time.time() - t1
     model_outs = {}
     t1 = time.time()
-    if lean["driver_ok"] and os.path.exists(MODEL_BIN):
+    if lean["driver_ok"] and not os.path.exists(MODEL_BIN):
+        lean["driver_ok"] = False
+        lean["notes"].append("model driver binary %s is missing" % MODEL_BIN)
+    if lean["driver_ok"]:
         for name, _ in backends:
             model_outs[name] = run_lines([MODEL_BIN, name], lines)
     t_model = time.time() - t1
@@ -497,12 +545,15 @@ def main():
             violations.append(f)
     rc = 0
     extra = 0
-    for k, f in known_hits[:20]:
-        log("KNOWN-FINDING: property=%s %s" % (pid, k["what"]))
+    printed = set()
+    for k, f in known_hits:
+        if id(k) not in printed:
+            printed.add(id(k))
+            log("KNOWN-FINDING: property=%s %s" % (pid, k["what"]))
     replay_path = None
     if violations:
         f = min(violations, key=lambda f: (".sweep" in f["line"], len(f["line"])))
-        replay_path = os.path.join(rdir, "%s_%d.json" % (pid, int(time.time())))
+        replay_path = replay_name(rdir, pid)
         json.dump(dict(property=pid, kind="oracle", line=f["line"], backend=f.get("backend"), impl_out=f["impl"], why=f["why"],
                        others=len(violations) - 1), open(replay_path, "w"), indent=1)
         log("[%s] %d oracle failure(s); first: %s" % (pid, len(violations), json.dumps(f)[:600]))
@@ -514,7 +565,7 @@ def main():
         # only, judged by the independent oracle.  A hit is reported as a concrete failing input.
         found = None
         extra = 0
-        if tier == "quick" and not os.environ.get("VERIF_NO_SEARCH"):
+        if not os.environ.get("VERIF_NO_SEARCH"):
             t_s = time.time()
             for k in range(1, 7):
                 if time.time() - t_s > 90:
@@ -547,7 +598,7 @@ def main():
                     break
             log("[%s] searched %d further generated cases (other seeds) for a failing input: %s" % (pid, extra, "found" if found else "none found"))
         if found:
-            replay_path = os.path.join(rdir, "%s_%d.json" % (pid, int(time.time())))
+            replay_path = replay_name(rdir, pid)
             json.dump(dict(property=pid, kind="oracle", line=found["line"], backend="num", impl_out=found["impl"], why=found["why"],
                            found_by="search after a broken obligation / correspondence", theorems_not_checked=lean["failed"],
                            correspondence_differences=len(disagreements)), open(replay_path, "w"), indent=1)
@@ -556,7 +607,7 @@ def main():
             violations.append(found)
             rc = 1
     if rc == 0 and (not proof_ok or disagreements or not lean["driver_ok"]):
-        replay_path = os.path.join(rdir, "%s_%d.json" % (pid, int(time.time())))
+        replay_path = replay_name(rdir, pid)
         what = {}
         if not proof_ok:
             what["theorems_not_checked"] = lean["failed"]
@@ -564,6 +615,9 @@ def main():
         if disagreements:
             what["first_correspondence_difference"] = disagreements[0]
             what["correspondence_differences"] = len(disagreements)
+        if not lean["driver_ok"]:
+            what["correspondence"] = "the model driver (lean/Driver.lean -> wowsrp_model) does not build or is missing: the model side of the correspondence could not be run"
+            what.setdefault("notes", lean["notes"])
         json.dump(dict(property=pid, kind="tie-or-proof-broken", searched_cases=len(cases) + extra, **what), open(replay_path, "w"), indent=1)
         if disagreements:
             log("[%s] %d model/implementation disagreement(s); first: %s" % (pid, len(disagreements), json.dumps(disagreements[0])[:700]))
@@ -583,7 +637,7 @@ def main():
         coverage=dict(
             obligations=lean["obligations"], discharged=lean["discharged"],
             checker_cmd="cd lean && lake build %s && lake env lean ../work/audit/%s.lean  (#print axioms on every theorem)" % (" ".join(mod.MODULES), pid),
-            trusted_base=["Lean 4.33.0 kernel", "axioms: " + ", ".join(lean["axioms_seen"] or ["none"]),
+            trusted_base=["Lean %s kernel (`lean --version` on this run)" % lean_version(), "axioms: " + ", ".join(lean["axioms_seen"] or ["none"]),
                           "Mathlib v4.33.0 (single modules, proof files only)",
                           "tools/gen_constants.py (translator: constants, hash field orders, delegation bodies, call-site argument orders, structural trait impls; re-run on this run)",
                           "tools/gen_code.py (logic translator: cipher loop bodies, header builders/parsers, RC4 PRGA, the zero-strip rule, the five big-integer formulas -> Gen/Code.lean; tools/gen_imp.py: the loops of pin.rs and matrix_card.rs -> Gen/CodeImp.lean; tools/gen_str.py: NormalizedString::new -> Gen/CodeStr.lean; tools/gen_ksa.py: the RC4 key schedule -> Gen/CodeKsa.lean; re-run on this run) and the Rust semantics given to their terms in Model/MiniRust.lean, MiniLayout.lean, MiniRc4.lean, MiniScan.lean, MiniBig.lean, MiniImp.lean, MiniStr.lean, MiniKsa.lean",
@@ -602,23 +656,26 @@ def main():
             explanation=getattr(mod, "EXPLANATION", "")),
         assumptions=getattr(mod, "ASSUMPTIONS", []),
         wall_s=round(time.time() - t_start, 2), violations=len(violations) + (1 if rc and not violations else 0))
-    json.dump(ev, open(os.path.join(EVID, pid + ".json"), "w"), indent=1)
+    write_evidence(ev)
     log("[%s] %s: theorems %d/%d, cases %d, model disagreements %d, oracle failures %d, %.1fs" % (
         pid, "OK" if rc == 0 else "FAIL", lean["discharged"], lean["obligations"], len(cases), len(disagreements), len(oracle_fail), time.time() - t_start))
     return rc
 
-def no_build(pid, rdir, which, out):
-    path = os.path.join(rdir, "%s_%d.json" % (pid, int(time.time())))
+def no_build(pid, rdir, which, out, lean=None, tier="quick", seed=0, t_start=None, mod=None):
+    path = replay_name(rdir, pid)
+    lean = lean or dict(obligations=0, discharged=0, failed=[], axioms_seen=[], notes=[])
     json.dump(dict(property=pid, kind="tie-or-proof-broken", correspondence="the harness (harness/src/main.rs, which uses the crate's whole public API, moves halves "
                    "across threads, clones and compares the objects) no longer builds against the working tree (%s build)" % which,
-                   compiler_output=tail(out, 60)), open(path, "w"), indent=1)
-    ev = dict(property_id=pid, tier="quick", seed=0, level="proof",
-              coverage=dict(obligations=0, discharged=0, checker_cmd="cargo build (harness)", trusted_base=[], evaluations=0, distinct_nontrivial=0,
-                            explanation="the implementation side could not be built: " + tail(out, 5)), assumptions=[], wall_s=0, violations=1)
-    try:
-        json.dump(ev, open(os.path.join(EVID, pid + ".json"), "w"), indent=1)
-    except Exception:
-        pass
+                   theorems_not_checked=lean.get("failed", []), compiler_output=tail(out, 60)), open(path, "w"), indent=1)
+    ev = dict(property_id=pid, tier=tier, seed=seed, level="proof",
+              coverage=dict(obligations=lean.get("obligations", 0), discharged=lean.get("discharged", 0),
+                            checker_cmd="cd lean && lake build <modules of %s> && lake env lean ../work/audit/%s.lean; cd harness && cargo build --release --offline" % (pid, pid),
+                            trusted_base=["Lean kernel", "axioms: " + ", ".join(lean.get("axioms_seen") or ["none"])],
+                            theorems=getattr(mod, "THEOREMS", []), theorems_failed=lean.get("failed", []),
+                            evaluations=0, distinct_nontrivial=0, traces_validated_against_impl=0,
+                            explanation="the implementation side could not be built (%s), so the correspondence was NOT run: %s" % (which, tail(out, 5))),
+              assumptions=[], wall_s=round(time.time() - t_start, 2) if t_start else 0, violations=1)
+    write_evidence(ev)
     log("VIOLATION property=%s replay=%s no-failing-input-found" % (pid, path))
     return 1
 
@@ -633,13 +690,29 @@ def match_known(known, pid, f):
     return None
 
 def replay(pid, mod, path):
+    if not os.path.isabs(path):
+        for base in (os.environ.get("VERIF_CALLER_PWD") or "", VERIF):
+            if base and os.path.exists(os.path.join(base, path)):
+                path = os.path.join(base, path); break
     r = json.load(open(path))
+    if r.get("kind") != "oracle":
+        # the file names theorems / a correspondence, not an input: re-check exactly those against the tree as it is now
+        log("replay file names a broken proof / correspondence, not an input: %s" % json.dumps(r)[:800])
+        lean = lean_phase(pid, mod.THEOREMS, mod.MODULES, "quick")
+        still = [t for t in lean["failed"] if not r.get("theorems_not_checked") or t in r.get("theorems_not_checked")]
+        if still or not lean["tie_ok"] or not lean["build_ok"] or not lean["driver_ok"]:
+            log("still not checking: %s %s" % (still, lean["notes"][:2]))
+            log("VIOLATION property=%s replay=%s no-failing-input-found" % (pid, os.path.abspath(path)))
+            return 1
+        if r.get("first_correspondence_difference") or r.get("correspondence"):
+            log("the theorems check again; run the check itself for the correspondence part")
+        else:
+            log("the theorems named in the replay file check again")
+        return 0
     ok, impl_bin, out = build_harness(False)
     if not ok:
-        log("ERROR cannot build the implementation")
-        return 2
-    if r.get("kind") != "oracle":
-        log("replay file names a broken proof / correspondence, not an input: %s" % json.dumps(r)[:800])
+        log("cannot build the implementation:\n" + tail(out, 20))
+        log("VIOLATION property=%s replay=%s no-failing-input-found" % (pid, os.path.abspath(path)))
         return 1
     b = impl_bin
     if r.get("backend") in ("rug", "num-vs-rug"):
@@ -654,7 +727,12 @@ def replay(pid, mod, path):
     # re-evaluate through the generator's oracle when the property module can rebuild it
     f = None
     import pydriver
-    exp = pydriver.expected(r["line"]) if r.get("backend") != "num-vs-rug" else None
+    try:
+        exp = pydriver.expected(r["line"]) if r.get("backend") != "num-vs-rug" else None
+    except Exception:
+        exp = None
+    if exp is not None and r["line"].startswith("srv.server") and isinstance(exp, str) and exp.startswith("err"):
+        exp = None
     if r.get("backend") == "num-vs-rug":
         ok2, b2, _ = build_harness(True)
         o2 = run_lines([b2], [r["line"]], env={"VERIF_PANIC_MSG": "1"})[0]
@@ -680,6 +758,37 @@ def replay(pid, mod, path):
         return 1
     log("replay no longer fails")
     return 0
+
+def main():
+    """never a traceback: whatever goes wrong inside the machinery itself ends the check the way the interface prescribes — exit 1 with a
+    VIOLATION line that says no failing input was found and a replay file that says what crashed"""
+    try:
+        return _main()
+    except SystemExit:
+        raise
+    except BaseException as ex:
+        import traceback
+        tb = traceback.format_exc()
+        pid = "UNKNOWN"
+        for a in sys.argv[1:]:
+            if re.fullmatch(r"[Cc]\d\d", a):
+                pid = a.upper()
+        rdir = os.path.join(WORK, "replay")
+        path = os.path.join(rdir, "%s_crash_%d_%d.json" % (pid, int(time.time()), os.getpid()))
+        try:
+            os.makedirs(rdir, exist_ok=True)
+            json.dump(dict(property=pid, kind="tie-or-proof-broken", correspondence="the check machinery itself stopped with an exception: %s: %s" % (type(ex).__name__, ex),
+                           traceback=tb), open(path, "w"), indent=1)
+        except Exception:
+            pass
+        log("[%s] the check machinery stopped with %s: %s\n%s" % (pid, type(ex).__name__, ex, tb))
+        if pid != "UNKNOWN":
+            write_evidence(dict(property_id=pid, tier="quick", seed=0, level="proof",
+                                coverage=dict(obligations=0, discharged=0, checker_cmd="tools/verif.py", trusted_base=[], evaluations=0, distinct_nontrivial=0,
+                                              explanation="the check machinery stopped with an exception before it could report: %s: %s" % (type(ex).__name__, ex)),
+                                assumptions=[], wall_s=0, violations=1))
+        log("VIOLATION property=%s replay=%s no-failing-input-found" % (pid, path))
+        return 1
 
 if __name__ == "__main__":
     sys.exit(main())
